@@ -646,8 +646,8 @@ theorem retransmit_ord (mid : Nat) (h : Ord N f0 g0 t k c) : Ord N f0 g0 t k (c.
     · simp only
       exact sendPdu_ord _ _ _ (Or.inl (by simp)) (oupd! (ord_emit_q _ rfl h))
     · simp only
-      refine oupd! ?_
-      exact ord_ite (fun _ => ord_emit_q _ rfl (ackFlush_ord h)) fun _ => ackFlush_ord h
+      have h0 := ord_upd (fun s => { s with inflight := s.inflight.filter (·.sn ≠ q.sn) }) rfl (Nat.le_refl _) rfl id h
+      exact ord_ite (fun _ => ord_emit_q _ rfl (ackFlush_ord h0)) fun _ => ackFlush_ord h0
 
 theorem dtlsEstablishClient_ord (h : Ord N f0 g0 t k c) : Ord N f0 g0 t k c.dtlsEstablishClient := by
   unfold Ctx.dtlsEstablishClient
